@@ -811,7 +811,7 @@ func (vc *VC) applyEvent(act *Act, st *State, pre *State, ev *Event, args []Val,
 		f := pe.evalBoolExpr(r.Expr)
 		k := vc.counts["ev#"+ev.Key]
 		vc.counts["ev#"+ev.Key]++
-		vc.oblige(st, &Obligation{Name: fmt.Sprintf("%s#event#%s %s#%s#%d", vc.eng.shortName(act.fn), ev.Kind, ev.Key, clauseName(r, n), k), Kind: "event-precondition", Clause: r.Text, Src: vc.srcPos(site.Pos()), Tags: append(append([]string{}, r.Tags...), vc.fcTags()...)}, f)
+		vc.oblige(st, &Obligation{Name: fmt.Sprintf("%s#event#%s %s#%s#%d", vc.eng.shortName(act.fn), ev.Kind, ev.Key, clauseName(r, n), k), Kind: "event-precondition", Clause: r.Text, Src: vc.srcPos(site.Pos()), Tags: eventTags(r, vc)}, f)
 	}
 	// updates are simultaneous: evaluate all right-hand sides first
 	vals := make([]string, len(ev.Do))
@@ -1025,4 +1025,13 @@ func (vc *VC) varargElems(act *Act, arg ssa.Value) ([]Val, bool) {
 		}
 	}
 	return out, true
+}
+
+// eventTags: an event precondition belongs to the properties it is tagged with; untagged ones
+// follow the function under verification.
+func eventTags(r *Clause, vc *VC) []string {
+	if len(r.Tags) > 0 {
+		return r.Tags
+	}
+	return vc.fcTags()
 }
